@@ -109,6 +109,9 @@ type Config struct {
 	GateProb float64
 	// Sticky: probability that the gate scheduler continues with the goroutine it ran last.
 	Sticky float64
+	// Priority: the gate scheduler runs the gated goroutine with the highest (random, occasionally
+	// lowered) priority instead of choosing uniformly (see releaseOneGated).
+	Priority bool
 	// TimerSkewPPM scales product timer durations (clock skew between DUT and peers).
 	TimerSkewPPM int64
 	// Knobs overrides for tuning constants.
@@ -161,6 +164,9 @@ type Sim struct {
 	waiters map[*waiter]struct{}
 	gated   []*gateEntry
 	lastRun uint64
+	// priority scheduling (cfg.Priority)
+	prio      map[uint64]int64
+	prioFloor int64
 	driver  uint64 // goroutine that created the simulation and drives the event loop
 
 	// Wait is the quiescence barrier (synctest.Wait). Set by the harness.
